@@ -36,6 +36,72 @@ FILES = {
     "src/backend/sqlite/index.rs": ["C13"],
     "src/types.rs": ["C04", "C19"],
 }
+# builder layer (mode "builder": statements of builder methods are deleted / turned from append into replace and back)
+BUILDER_FILES = {
+    "src/expr.rs": ["C05", "C08", "C07"],
+    "src/func.rs": ["C08", "C05"],
+    "src/extension/postgres/func.rs": ["C08"],
+    "src/extension/postgres/expr.rs": ["C08", "C05"],
+    "src/extension/sqlite/expr.rs": ["C07", "C05"],
+    "src/query/select.rs": ["C08", "C07", "C15"],
+    "src/query/insert.rs": ["C10", "C08", "C07"],
+    "src/query/update.rs": ["C08", "C07", "C06"],
+    "src/query/delete.rs": ["C08", "C07", "C06"],
+    "src/query/condition.rs": ["C06", "C07"],
+    "src/query/on_conflict.rs": ["C08", "C07", "C06"],
+    "src/query/ordered.rs": ["C08", "C07"],
+    "src/query/returning.rs": ["C08", "C07"],
+    "src/query/window.rs": ["C08", "C07", "C15"],
+    "src/query/with.rs": ["C08", "C07"],
+    "src/query/case.rs": ["C08", "C06"],
+    "src/table/create.rs": ["C14", "C13", "C15"],
+    "src/table/alter.rs": ["C14", "C15"],
+    "src/table/column.rs": ["C14", "C13", "C15"],
+    "src/table/drop.rs": ["C14", "C15"],
+    "src/table/rename.rs": ["C14", "C15"],
+    "src/table/truncate.rs": ["C14", "C15"],
+    "src/index/create.rs": ["C14", "C13", "C15"],
+    "src/index/common.rs": ["C14", "C13"],
+    "src/index/drop.rs": ["C14", "C15"],
+    "src/foreign_key/create.rs": ["C14", "C13", "C15"],
+    "src/foreign_key/common.rs": ["C14", "C13", "C15"],
+    "src/foreign_key/drop.rs": ["C14", "C15"],
+    "src/extension/postgres/types.rs": ["C14"],
+    "src/extension/postgres/extension.rs": ["C14"],
+}
+
+def builder_candidates(path, text):
+    out = []
+    lines = text.split("\n")
+    in_test = False
+    for i, l in enumerate(lines):
+        if "#[cfg(test)]" in l:
+            in_test = True
+        if in_test:
+            continue
+        st = l.strip()
+        if st.startswith("//") or st.startswith("#["):
+            continue
+        # one-line statements on self fields
+        if re.match(r"^self\.[a-z_.]+(\.push\(|\.extend\(|\.append\(| = ).*;$", st):
+            out.append((i, "delete-self-statement", ""))
+            m = re.match(r"^(\s*)self\.([a-z_.]+)\.push\((.*)\);$", l)
+            if m:
+                out.append((i, "push-to-assign", f"{m.group(1)}self.{m.group(2)} = vec![{m.group(3)}];"))
+            m = re.match(r"^(\s*)self\.([a-z_.]+) = Some\((.*)\);$", l)
+            if m:
+                out.append((i, "some-to-none", f"{m.group(1)}self.{m.group(2)} = None;"))
+            m = re.match(r"^(\s*)self\.([a-z_.]+) = (true|false);$", l)
+            if m:
+                out.append((i, "flip-bool", f"{m.group(1)}self.{m.group(2)} = {'false' if m.group(3) == 'true' else 'true'};"))
+        for a, b, name in [("BinOper::Equal", "BinOper::NotEqual", "eq-ne-oper"), ("BinOper::And", "BinOper::Or", "and-or-oper"), ("Order::Asc", "Order::Desc", "asc-desc"),
+                           ("NullOrdering::First", "NullOrdering::Last", "nulls"), ("JoinType::LeftJoin", "JoinType::InnerJoin", "join-type"), ("UnionType::All", "UnionType::Distinct", "union-type"),
+                           ("BinOper::In", "BinOper::NotIn", "in-notin"), ("BinOper::Like", "BinOper::NotLike", "like-notlike"), ("BinOper::GreaterThan,", "BinOper::SmallerThan,", "gt-lt"),
+                           ("BinOper::Is,", "BinOper::IsNot,", "is-isnot"), ("BinOper::Add", "BinOper::Sub", "add-sub"), ("UnOper::Not", "UnOper::Not", "noop")]:
+            if name != "noop" and a in l and "=>" not in l and "fn " not in l and "///" not in l:
+                out.append((i, name, l.replace(a, b, 1)))
+    return out
+
 
 def sh(cmd, **kw):
     return subprocess.run(cmd, shell=True, text=True, capture_output=True, **kw)
@@ -71,9 +137,15 @@ def main():
     worker = sys.argv[3] if len(sys.argv) > 3 else "0"
     rnd = random.Random(seed)
     allc = []
+    builder = os.environ.get("AUTOMUT_MODE") == "builder"
+    if builder:
+        FILES.clear()
+        FILES.update(BUILDER_FILES)
     for f in FILES:
+        if not os.path.exists(f"/repo/{f}"):
+            continue
         text = open(f"/repo/{f}").read()
-        for c in candidates(f, text):
+        for c in (builder_candidates if builder else candidates)(f, text):
             allc.append((f,) + c)
     rnd.shuffle(allc)
     wt = f"/tmp/automut-wt-{worker}"
@@ -90,7 +162,7 @@ def main():
         sh(f"git -C {wt} checkout -q --detach $(git -C /repo rev-parse HEAD) && git -C {wt} reset -q --hard")
         lines = open(f"{wt}/{f}").read().split("\n")
         old = lines[i]
-        if op == "delete-write":
+        if op in ("delete-write", "delete-self-statement"):
             lines[i] = ""
         else:
             lines[i] = new
